@@ -54,7 +54,7 @@ def family():
     return ExtractionError
 
 
-class Timeout(Exception):
+class Timeout(BaseException):  # not an Exception: a parser's own `except Exception` must not swallow it
     pass
 
 
@@ -199,3 +199,53 @@ def mutations(rng, name, data, others, k):
                 continue
         out.append((kind, m))
     return out
+
+
+# ----------------------------------------------------------------------------- dictionary-based token streams
+def source_tokens(relpath, pattern):
+    """tokens harvested from the CURRENT source text of an extractor (so newly handled keywords are tried too)"""
+    import re
+    with open(os.path.join(REPO, relpath), encoding="utf-8") as fh:
+        src = fh.read()
+    return sorted(set(re.findall(pattern, src)))
+
+
+EXTREME_INTS = [-(2 ** 31), -70000, -4096, -300, -13, -12, -2, -1, 0, 1, 2, 7, 255, 256, 65535, 65536, 2 ** 31 - 1, 2 ** 31, 10 ** 12]
+
+
+def rtf_token_docs(rng, n):
+    """small RTF documents from a grammar of groups / destinations / control words (vocabulary harvested from
+    rtf_extractor.py) with extreme numeric parameters"""
+    words = source_tokens("sharepoint2text/parsing/extractors/ms_legacy/rtf_extractor.py", r"\\\\([a-z]{1,12})")
+    words = sorted(set(words) | {"par", "page", "pict", "bin", "u", "uc", "pngblip", "object", "fonttbl", "info", "title",
+                                 "trowd", "cell", "row", "tab", "line", "sect", "pard", "intbl", "field", "fldrslt"})
+    # words the source reads a numeric parameter of (regex literals such as \\\\bin(-?\\d+) or \\\\u(-?\\d+)) get extra weight
+    numeric = source_tokens("sharepoint2text/parsing/extractors/ms_legacy/rtf_extractor.py", r"\\\\([a-z]{1,12})\(-\?\\d")
+    numeric = sorted(set(numeric) | {"u", "uc", "bin"})
+    dests = ["pict", "object", "fonttbl", "info", "*\\generator", "*\\shppict", "stylesheet", "colortbl", "header", "footer", "footnote"]
+    docs = []
+    for _ in range(n):
+        parts = ["{\\rtf1\\ansi "]
+        depth = 1
+        for _ in range(rng.randint(3, 25)):
+            r = rng.random()
+            if r < 0.25:
+                parts.append("".join(rng.choice("abc xyz") for _ in range(rng.randint(1, 6))))
+            elif r < 0.40:
+                parts.append("{\\" + rng.choice(dests) + " ")
+                depth += 1
+            elif r < 0.50:
+                parts.append("{")
+                depth += 1
+            elif r < 0.62 and depth > 1:
+                parts.append("}")
+                depth -= 1
+            elif r < 0.66:
+                parts.append(rng.choice(["\\'e9", "\\'", "\\\\", "\\{", "\\}", "\\~", "\\\n", "\\u", "\\bin"]))
+            else:
+                w = rng.choice(numeric) if rng.random() < 0.45 else rng.choice(words)
+                par = rng.choice(["", str(rng.choice(EXTREME_INTS)), str(rng.choice(EXTREME_INTS)), str(rng.randint(0, 40))])
+                parts.append("\\" + w + par + rng.choice(["", " ", "?", "  "]))
+        parts.append("}" * (depth if rng.random() < 0.8 else max(0, depth - 1)))
+        docs.append("".join(parts).encode("latin-1", "replace"))
+    return docs
